@@ -1,5 +1,6 @@
 import Tw.Model.OnlineNet
 import Tw.Proofs.ConnSafetyOnline
+import Tw.Proofs.ConnProgressA
 
 /-!
 # C02 (c): progress of the two online cores under fair rounds
@@ -121,5 +122,226 @@ theorem step_toCore (cfg : Cfg) (s : Sys) (m : Move) :
             rw [vitalPayloads_eq, nonvitalPayloads_eq]
             congr 1
             exact net_upd s x fl
+
+/-! ## the safety invariant on `OnlineNet.Sys` -/
+
+def Inv (cfg : Cfg) (s : Sys) : Prop := ∀ x, Tw.NetSim.Core.Dir cfg (toCore s) x
+
+theorem init_inv (cfg : Cfg) : Inv cfg .init := Tw.NetSim.Core.Sys.init_dir cfg
+
+theorem step_inv {cfg : Cfg} (hc : cfg.Ok) {s s' : Sys} (h : Inv cfg s) (m : Move) (he : step cfg s m = some s') :
+    Inv cfg s' := by
+  have := step_toCore cfg s m
+  rw [he] at this
+  exact Tw.NetSim.Core.step_dir hc h (toCoreMove m) this.symm
+
+theorem run_inv {cfg : Cfg} (hc : cfg.Ok) : ∀ (ms : List Move) (s s' : Sys), Inv cfg s → run cfg s ms = some s' →
+    Inv cfg s' := by
+  intro ms
+  induction ms with
+  | nil => intro s s' h he; simp [run] at he; subst he; exact h
+  | cons m ms ih =>
+    intro s s' h he
+    simp only [run] at he
+    cases hs : step cfg s m with
+    | none => rw [hs] at he; cases he
+    | some s1 => rw [hs] at he; exact ih s1 s' (step_inv hc h m hs) he
+
+theorem run_append (cfg : Cfg) (a b : List Move) (s : Sys) :
+    run cfg s (a ++ b) = (run cfg s a).bind fun s1 => run cfg s1 b := by
+  induction a generalizing s with
+  | nil => rfl
+  | cons m ms ih =>
+    simp only [List.cons_append, run]
+    cases step cfg s m with
+    | none => rfl
+    | some s1 => exact ih s1
+
+@[simp] theorem upd_same {α : Type} (f : Bool → α) (x : Bool) (v : α) : upd f x v x = v := by simp [upd]
+@[simp] theorem upd_not {α : Type} (f : Bool → α) (x : Bool) (v : α) : upd f x v (!x) = f (!x) := by
+  cases x <;> simp [upd]
+@[simp] theorem upd_not' {α : Type} (f : Bool → α) (x : Bool) (v : α) : upd f (!x) v x = f x := by
+  cases x <;> simp [upd]
+
+/-! ## the moves of a fair round -/
+
+/-- `x` resends and flushes: only `x`'s core and history change -/
+theorem phase_step {cfg : Cfg} (hc : cfg.Ok) {s : Sys} (h : Inv cfg s) (x : Bool) :
+    ∃ s1 o2 fls, run cfg s [.resend x, .flush x] = some s1 ∧ sendPhase cfg (s.ep x) = some (o2, fls) ∧
+      s1.ep x = o2 ∧ s1.ep (!x) = s.ep (!x) ∧ s1.net x = s.net x ++ stamp s x fls ∧ s1.net (!x) = s.net (!x) ∧
+      s1.sub = s.sub ∧ s1.del = s.del := by
+  have hinv : (s.ep x).Inv cfg := (h x).inv
+  obtain ⟨o', send', fl, he, _⟩ := Online.resend_spec hc hinv 0 .inactive
+  have hsa : step cfg s (.resend x) =
+      some { s with ep := upd s.ep x o', net := upd s.net x (s.net x ++ stamp s x fl) } := by
+    simp [step, he]
+  refine ⟨{ s with ep := upd (upd s.ep x o') x o'.flush.1,
+                   net := upd (upd s.net x (s.net x ++ stamp s x fl)) x
+                     (s.net x ++ stamp s x fl ++ stamp s x o'.flush.2) },
+    o'.flush.1, fl ++ o'.flush.2, ?_, by simp [sendPhase, he], ?_, ?_, ?_, ?_, rfl, rfl⟩
+  · simp only [run]
+    rw [hsa]
+    simp only [step, upd_same]
+    rfl
+  all_goals simp [stamp]
+
+/-- one delivery: the receiving core does `recvOnline`, nothing else changes but its history and logs -/
+theorem deliver_step {cfg : Cfg} (hc : cfg.Ok) {s : Sys} (h : Inv cfg s) (y : Bool) (i : Nat) (p : Stamped)
+    (hp : (s.net (!y))[i]? = some p) (h1 : p.nSelf = (s.sub (!y)).length) (h2 : p.nPeer = (s.sub y).length) :
+    ∃ s' o2, step cfg s (.deliver y i) = some s' ∧ recvOnline cfg (s.ep y) p.pkt = some o2 ∧
+      s'.ep y = o2 ∧ s'.ep (!y) = s.ep (!y) ∧ s'.net (!y) = s.net (!y) ∧ s'.sub = s.sub ∧
+      s'.del (!y) = s.del (!y) ∧ (s.del y).length ≤ (s'.del y).length ∧ (∃ ext, s'.net y = s.net y ++ ext) := by
+  have hpm : toCoreStamped p ∈ (toCore s).net (!y) := by
+    simp only [toCore]
+    exact List.mem_map_of_mem (List.mem_of_getElem? hp)
+  -- the ack is a 10-bit value, the chunk sequence numbers too
+  have hack : p.pkt.ack < seqMod := by
+    have := ((h y).acks _ hpm).1
+    simp only [toCoreStamped] at this
+    rw [this, Tw.Conn.seqMod_eq]; omega
+  have hseq : chunksSeqOk p.pkt.chunks = true := by
+    have := ((h (!y)).net _ hpm).2.1
+    simp only [chunksSeqOk, List.all_eq_true]
+    intro c hcm
+    cases hv : c.vital with
+    | none => rfl
+    | some v =>
+      obtain ⟨sq, r⟩ := v
+      obtain ⟨k, _, _, hk⟩ := this c hcm sq r hv
+      simp only [decide_eq_true_eq]
+      rw [hk.2, Tw.Conn.seqMod_eq]; omega
+  have hinv : (s.ep y).Inv cfg := (h y).inv
+  obtain ⟨hfa, hinv1⟩ := Online.feedAck_spec hinv hack
+  obtain ⟨o2, snd2, fl, evs, hrc, _⟩ := Online.receive_spec hc hinv1 0 .inactive p.pkt.requestResend p.pkt.chunks hseq
+  refine ⟨{ s with ep := upd s.ep y o2, net := upd s.net y (s.net y ++ stamp s y fl),
+                   del := upd s.del y (s.del y ++ vitalPayloads evs),
+                   nvDel := upd s.nvDel y (s.nvDel y ++ nonvitalPayloads evs) },
+    o2, ?_, by simp [recvOnline, hfa, hrc], ?_, ?_, ?_, ?_, ?_, ?_, ⟨stamp s y fl, ?_⟩⟩
+  · simp only [step, hp, hfa, hrc]
+    rw [if_neg]
+    simp only [h2Limit, h1, h2]; omega
+  all_goals simp
+
+/-- the deliveries of one block: the receiving core does `recvList` -/
+theorem block_run {cfg : Cfg} (hc : cfg.Ok) (y : Bool) : ∀ (ds old rest : List Stamped) (s : Sys), Inv cfg s →
+    s.net (!y) = old ++ ds ++ rest → (∀ p ∈ ds, p.nSelf = (s.sub (!y)).length ∧ p.nPeer = (s.sub y).length) →
+    ∃ s' o', run cfg s ((List.range' old.length ds.length).map (Move.deliver y)) = some s' ∧
+      recvList cfg (s.ep y) (ds.map (·.pkt)) = some o' ∧ s'.ep y = o' ∧ s'.ep (!y) = s.ep (!y) ∧
+      s'.net (!y) = s.net (!y) ∧ s'.sub = s.sub ∧ s'.del (!y) = s.del (!y) ∧
+      (s.del y).length ≤ (s'.del y).length ∧ (∃ ext, s'.net y = s.net y ++ ext) ∧ Inv cfg s' := by
+  intro ds
+  induction ds with
+  | nil =>
+    intro old rest s h _ _
+    exact ⟨s, s.ep y, rfl, rfl, rfl, rfl, rfl, rfl, rfl, Nat.le_refl _, ⟨[], by simp⟩, h⟩
+  | cons p ds ih =>
+    intro old rest s h hnet hst
+    have hp : (s.net (!y))[old.length]? = some p := by
+      rw [hnet, List.append_assoc, List.getElem?_append_right (Nat.le_refl _)]; simp
+    obtain ⟨s1, o2, hs1, hr1, e1, e2, e3, e4, e5, e6, ⟨x1, e7⟩⟩ :=
+      deliver_step hc h y old.length p hp (hst p (by simp)).1 (hst p (by simp)).2
+    have hinv1 := step_inv hc h _ hs1
+    obtain ⟨s', o', hs', hr', f1, f2, f3, f4, f5, f6, ⟨x2, f7⟩, f8⟩ := ih (old ++ [p]) rest s1 hinv1
+      (by rw [e3, hnet]; simp) (by
+        intro q hq
+        rw [e4]; exact hst q (List.mem_cons_of_mem _ hq))
+    refine ⟨s', o', ?_, ?_, f1, by rw [f2, e2], by rw [f3, e3], by rw [f4, e4], by rw [f5, e5],
+      Nat.le_trans e6 f6, ⟨x1 ++ x2, by rw [f7, e7]; simp⟩, f8⟩
+    · simp only [List.length_cons, List.range'_succ, List.map_cons, run, hs1]
+      simpa using hs'
+    · simp only [List.map_cons, recvList, hr1]
+      rw [← e1]; exact hr'
+
+/-! ## one fair round -/
+
+theorem range_drop (a b : Nat) : (List.range (a + b)).drop a = List.range' a b := by
+  apply List.ext_getElem?
+  intro i
+  simp only [List.getElem?_drop, List.getElem?_range', List.getElem?_range]
+  by_cases h : i < b
+  · simp [h]
+  · simp [h]
+
+theorem stamp_pkt (s : Sys) (x : Bool) (fl : List Flushed) : (stamp s x fl).map (·.pkt) = fl := by
+  simp [stamp, Function.comp_def]
+
+/-- what a fair round is, in terms of the two cores: `sb` is the state after both sides resent and
+flushed, `s'` the state after the deliveries -/
+structure Round (cfg : Cfg) (s sb s' : Sys) : Prop where
+  inv0 : Inv cfg s
+  invb : Inv cfg sb
+  inv' : Inv cfg s'
+  subb : sb.sub = s.sub
+  delb : sb.del = s.del
+  sub' : s'.sub = s.sub
+  mono : ∀ y, (s.del y).length ≤ (s'.del y).length
+  phase : ∀ x, ∃ fls, sendPhase cfg (s.ep x) = some (sb.ep x, fls) ∧
+    recvList cfg (sb.ep (!x)) fls = some (s'.ep (!x))
+
+theorem fairRound_spec {cfg : Cfg} (hc : cfg.Ok) {s : Sys} (h : Inv cfg s) :
+    ∃ sb s', fairRound cfg s = some s' ∧ Round cfg s sb s' := by
+  obtain ⟨sa, oT, fT, ha, hpT, a1, a2, a3, a4, a5, a6⟩ := phase_step hc h true
+  have hinva := run_inv hc _ _ _ h ha
+  obtain ⟨sb, oF, fF, hb, hpF, b1, b2, b3, b4, b5, b6⟩ := phase_step hc hinva false
+  have hinvb := run_inv hc _ _ _ hinva hb
+  simp only [Bool.not_true, Bool.not_false] at a2 a4 b2 b4
+  have h4 : run cfg s [.resend true, .flush true, .resend false, .flush false] = some sb := by
+    have := run_append cfg [.resend true, .flush true] [.resend false, .flush false] s
+    simp only [List.cons_append, List.nil_append] at this
+    rw [this, ha]; exact hb
+  -- block 1: T's datagrams to F
+  have hnT : sb.net true = s.net true ++ stamp s true fT ++ [] := by rw [b4, a3]; simp
+  obtain ⟨sc, oF', hc1, hr1, c1, c2, c3, c4, c5, c6, ⟨xF, c7⟩, hinvc⟩ :=
+    block_run hc false (stamp s true fT) (s.net true) [] sb hinvb (by simpa using hnT) (by
+      intro p hp
+      simp only [stamp, List.mem_map] at hp
+      obtain ⟨f, _, rfl⟩ := hp
+      simp only [Bool.not_false]
+      rw [b5, a5]; exact ⟨rfl, rfl⟩)
+  simp only [Bool.not_false] at c2 c3 c5
+  -- block 2: F's datagrams to T
+  have hnF : sc.net false = s.net false ++ stamp sa false fF ++ xF := by rw [c7, b3, a4]
+  obtain ⟨sd, oT', hd1, hr2, d1, d2, d3, d4, d5, d6, _, hinvd⟩ :=
+    block_run hc true (stamp sa false fF) (s.net false) xF sc hinvc (by simpa using hnF) (by
+      intro p hp
+      simp only [stamp, List.mem_map] at hp
+      obtain ⟨f, _, rfl⟩ := hp
+      simp only [Bool.not_true]
+      rw [c4, b5]; exact ⟨rfl, rfl⟩)
+  simp only [Bool.not_true] at d2 d3 d5
+  refine ⟨sb, sd, ?_, ⟨h, hinvb, hinvd, by rw [b5, a5], by rw [b6, a6], by rw [d4, c4, b5, a5], ?_, ?_⟩⟩
+  · simp only [fairRound, h4]
+    have e1 : (List.range (sb.net true).length).drop (s.net true).length =
+        List.range' (s.net true).length (stamp s true fT).length := by
+      rw [b4, a3, List.length_append]; exact range_drop _ _
+    have e2 : (List.range (sb.net false).length).drop (s.net false).length =
+        List.range' (s.net false).length (stamp sa false fF).length := by
+      rw [b3, a4, List.length_append]; exact range_drop _ _
+    rw [e1, e2, run_append, hc1]
+    exact hd1
+  · intro y
+    cases y with
+    | false =>
+      have : (sb.del false).length ≤ (sc.del false).length := c6
+      rw [b6, a6] at this
+      rw [d5]; exact this
+    | true =>
+      have : (sc.del true).length ≤ (sd.del true).length := d6
+      rw [c5, b6, a6] at this
+      exact this
+  · intro x
+    cases x with
+    | true =>
+      refine ⟨fT, by rw [b2, a1]; exact hpT, ?_⟩
+      simp only [Bool.not_true]
+      rw [d2, c1]
+      rw [stamp_pkt] at hr1
+      exact hr1
+    | false =>
+      refine ⟨fF, by rw [b1, ← a2]; exact hpF, ?_⟩
+      simp only [Bool.not_false]
+      rw [d1]
+      rw [stamp_pkt, c2] at hr2
+      exact hr2
 
 end Tw.OnlineNet
